@@ -100,7 +100,7 @@ HOOKS = {
 ENGINES = {
     "sim": {"path": "engine/sim.h", "serves": ["C03", "C05", "C06", "C08", "C09", "C10", "C16", "C17", "C18", "C20"],
             "kind": "harness-owned backend schedule: scheduler thread == ManualBackendWorker, baton-driven worker threads, interposed nanosleep/clock_gettime (blocked state, virtual time), yield-point bursts; harness/sim_main.cpp + sim_ops.h + sim_oracles.h"},
-    "rtstress": {"path": "harness/rt_stress.cpp", "serves": ["C03", "C06", "C08", "C17"], "kind": "real backend thread + 1-4 real frontend threads running generated programs under the OS scheduler; schedule-independent oracles at quiescence (second opinion for races inside backend/frontend functions that the serialised sim cannot interleave)"},
+    "rtstress": {"path": "harness/rt_stress.cpp", "serves": ["C03", "C06", "C08", "C17", "C20"], "kind": "real backend thread + 1-4 real frontend threads running generated programs under the OS scheduler; schedule-independent oracles at quiescence (second opinion for races inside backend/frontend functions that the serialised sim cannot interleave)"},
     "qtsan": {"path": "harness/queue_tsan.cpp", "serves": ["C01", "C02"], "kind": "real two-thread stress of the unmodified std::atomic queue code under ThreadSanitizer with generated configurations"},
     "wmm": {"path": "engine/wmm.h", "serves": ["C01", "C02", "C09"],
             "kind": "std::atomic retarget shim with per-location store history, vector clocks, coherence floors, choice-driven stale loads, coroutine scheduler, payload happens-before race detector"},
@@ -284,7 +284,7 @@ PROPERTIES = {
                  "Poll with bursts); non-trivial = a thread exited with unwritten statements OR >= 64 thread exits between two backend "
                  "idle periods OR a shrink took effect"),
         "assumptions": [],
-        "jobs": _simjobs("C20", ["sim_ub", "sim_ubs", "sim_bb1k", "sim_ud"], quick_cases=250, thorough_cases=3000, extra=None),
+        "jobs": _simjobs("C20", ["sim_ub", "sim_ubs", "sim_bb1k", "sim_ud"], quick_cases=250, thorough_cases=3000, extra=None) + [_rtjob("rt_ub", "C20", quick_cases=30, quick_procs=2)],
     },
     "C01": {
         "technique": "property-based testing: randomised C++11 memory-model simulation of the real queue code vs a FIFO model + happens-before race detector",
